@@ -148,10 +148,15 @@ func (c *conn) Invoke(ctx context.Context, input bin.Encoder, output bin.Decoder
 		case 1:
 			return ctx.Err()
 		case 2:
-			if w.tape.Coin(simrt.Net, 1, 2) {
+			switch w.tape.Choose(simrt.Net, 3) {
+			case 0:
+				return tdpool.ErrConnDead
+			case 1:
 				return fmt.Errorf("wrapped: %w", rpc.ErrEngineClosed)
 			}
-			return tdpool.ErrConnDead
+			// the result had already arrived when the connection died: the
+			// call completes normally on a connection that is now dead
+			simrt.Probe("invoke-completes-on-dead-conn")
 		}
 	}
 	switch outcome {
@@ -290,7 +295,15 @@ func run(t *testing.T, tape *simrt.Tape, env dst.Env) *simrt.Outcome {
 		return out
 	}
 	if out.Panic != "" {
-		out.HarnessErr = "panic in world pool task " + out.PanicTask + ": " + out.Panic
+		if !out.PanicInRepo() {
+			out.HarnessErr = "panic in world pool task " + out.PanicTask + ": " + out.Panic
+			return out
+		}
+		// the pool itself panicked (e.g. its own accounting assertion): its
+		// bookkeeping of live/free connections is broken
+		for _, p := range []string{"C27", "C28"} {
+			out.AddViolation(p, p+".pool-panic", "pool-panic", "pool code panicked in task %s: %s", out.PanicTask, out.PanicLine())
+		}
 		return out
 	}
 	if !probeRan || !probeOK {
